@@ -26,6 +26,25 @@ theorem errors_contained_run (c : Consts) (env : Env) (o : Nat → Outcome) (n :
     run c (env.setOut o) n σ [] = run c env n σ [] :=
   run_setOut c env o n σ []
 
+/-- **late_writes_contained.**  The `writeInitParams` calls behind the start-up round (repaired code: the configured
+values a round broken off by a communication failure had skipped): the successor state and the call list do not depend
+on any outcome — whatever a late write raises (SECoP / silent / communication error, arbitrary exception), the thread
+goes on — and every module of the thread, polled or not, gets exactly one such call, in list order. -/
+theorem late_writes_contained (env : Env) (o : Nat → Outcome) (is : List Nat) (σ : PollState) (evs : List Event) :
+    lateAll (env.setOut o) is σ evs = lateAll env is σ evs ∧
+    (lateAll env is σ []).evs.map (fun e => (e.m, e.f)) = is.map (fun i => (i, Fn.write)) := by
+  refine ⟨lateAll_setOut env o is σ evs, ?_⟩
+  simpa using lateAll_calls env is σ []
+
+/-- everything behind the start-up round — the late writes and any number of turns — is independent of all outcomes:
+from the state the round leaves, no failure of any kind changes what the thread does next (only a communication failure
+*inside* the round changes anything: it ends the round) -/
+theorem errors_contained_after_round (c : Consts) (env : Env) (o : Nat → Outcome) (n : Nat) (σ : PollState) (evs : List Event) :
+    run c (env.setOut o) n (lateAll (env.setOut o) (List.range σ.mods.length) σ evs).σ
+        (lateAll (env.setOut o) (List.range σ.mods.length) σ evs).evs =
+      run c env n (lateAll env (List.range σ.mods.length) σ evs).σ (lateAll env (List.range σ.mods.length) σ evs).evs := by
+  rw [lateAll_setOut, run_setOut]
+
 /-- the table fact the model's `call` rests on: `callPollFunc` catches `Exception` (re-extracted from the source) -/
 theorem callPollFunc_catches_exception : Generated.C13.callPollFuncCatchesException = true := by decide
 
@@ -83,6 +102,9 @@ theorem nopoll_never_read (c : Consts) (env : Env) (n : Nat) (σ : PollState) (h
     obtain ⟨mi, a, b, _⟩ := hget _ s hs
     exact ⟨mi, a, by rw [b]; exact h1⟩
   | init =>
+    have : mm < (statics σ).length := hv
+    simpa [traceOf, statics] using this
+  | write =>
     have : mm < (statics σ).length := hv
     simpa [traceOf, statics] using this
 
@@ -677,6 +699,17 @@ example : (startsOf (run exConsts exEnv 20 (applyExts [.setFastPoll 0 true 2, .t
 /-- `due_polled_this_turn` / `not_due_not_polled` on the first turn after start-up: module 1 is due and polled -/
 example : ∃ t, startsOf (turn exConsts exEnv (prologue exConsts exEnv exState).σ).evs 1 = [t] :=
   due_polled_this_turn exConsts exEnv exEnv_quiet 3 1 exEnv_bounded _ 1 (exMod 25 60 [2]) (by decide) rfl (by decide)
+
+/-- the late path on the example thread: `initialReads` of module 0 ends with a communication error (call 1) and every
+other call — the `writeInitParams` before it included — with an arbitrary exception: the round is broken off at once,
+then `writeInitParams` of all three modules is called (the one that is only written included), and the loop polls as
+if nothing had happened -/
+example :
+    (prologue exConsts (exEnv.setOut (fun k => if k = 1 then .comm else .exc)) exState).aborted = true ∧
+    (prologue exConsts (exEnv.setOut (fun k => if k = 1 then .comm else .exc)) exState).evs.map (fun e => (e.m, e.f)) =
+      [(0, .write), (0, .init), (0, .write), (1, .write), (2, .write)] ∧
+    (startsOf (thread exConsts (exEnv.setOut (fun k => if k = 1 then .comm else .exc)) 30 exState).evs 0).length ≥ 5 := by
+  decide +kernel
 
 /-- `nopoll_never_read` on it, and the monitor agrees -/
 example : noPollB (traceOf exState (thread exConsts exEnv 30 exState).evs 1000 2000 1) = true :=
